@@ -235,7 +235,7 @@ func c20Case(i int, raw []byte) Result {
 			if oerr == nil {
 				which := ""
 				for _, k := range c.Epub.Enc {
-					if k == "ch1" || k == "ch2" || k == "nav" {
+					if k == "ch1" || k == "ch2" || k == "ch3" || k == "nav" {
 						which += k
 					}
 				}
